@@ -4,11 +4,14 @@ Registry of driver commands.  Each property contributes `FeVerif/Driver/<X>.lean
 -/
 import FeVerif.Driver.Frame
 import FeVerif.Driver.Indexer
+import FeVerif.Driver.FileIndex
+import FeVerif.Driver.Angle
+import FeVerif.Driver.DataVersion
 
 namespace FeVerif
 
 def dispatchers : List (String → List String → Option String) :=
-  [dispatchFrame, dispatchIndexer]
+  [dispatchFrame, dispatchIndexer, dispatchFileIndex, dispatchAngle, dispatchDataVersion]
 
 def dispatch (line : String) : String :=
   match line.splitOn " " with
